@@ -37,6 +37,7 @@ COMPONENTS_REAL = [
     "pickle/cloudpickle serialisation of MPUChunk values and tasks (transport fault)",
 ]
 COMPONENTS_STUB = ["PartsWriter (recording writer with configurable limits)", "dask scheduler (DaskSim, layer B)"]
+HAZARD_PROBES = ['layerA_unavailable_skipped']
 ASSUMPTIONS = [
     "domain: >=1 chunk per partition; 1 + partitions*writes_per_chunk part ids fit in [min_part, max_part]; spill_sz >= 0",
     "max_write_sz is not part of the statement and is not checked",
